@@ -139,6 +139,9 @@ var c12Extra = []struct {
 	{"global", "SELECT GLOBAL.FIRST((SELECT id FROM t)) AS g, id FROM t", false, false},
 	{"dual", "SELECT 1 + 1 AS two, 'x' AS s, ('a', 1) AS tup, ARRAY() AS e FROM dual", false, false},
 	{"union-distinct", "SELECT b FROM t UNION SELECT b FROM u ORDER BY b", false, false},
+	{"selector-bad-later-stage", "SELECT id, `items::[zz]` AS tail FROM t", false, false},
+	{"selector-bad-range", "SELECT id FROM t WHERE `items[(0:1:2)]` IS NULL", false, false},
+	{"selector-bad-from", "SELECT id FROM `t::[(x:1)]`", false, false},
 	{"distinct-two-columns", "SELECT DISTINCT b, 'k' AS c, (a > 0) AS pos FROM t", false, false},
 	{"distinct-object-column", "SELECT DISTINCT FIRST(ARRAY(`o.r`)) AS r, b FROM t", false, false},
 	{"distinct-nested-objects", "SELECT DISTINCT `o.r` AS r, ARRAY(b, 1) AS arr, b, 1 AS one FROM t", false, false},
@@ -302,6 +305,17 @@ func (p *c12) RunCase(i int) *core.CaseResult {
 		if firstErr == "" && have && len(first) > 0 {
 			r.Nontrivial = true
 		}
+		if have && firstErr == "error" {
+			// determinism of failure: the same query on an equal input fails again (and again)
+			for k := 0; k < 2; k++ {
+				o2 := gq.Run(mk(), c.sql, genql.WithVars(map[string]any{"k": 7.0}), genql.WithConstants(map[string]any{"c": 1.0}), genql.UnReportedErrors(func(error) {}))
+				r.Execs++
+				if o2.Err == nil && o2.Panic == "" {
+					r.Fail("C12|"+c.sig+"|fails-only-the-first-time", fmt.Sprintf("%s (document %d) failed on the first evaluation but evaluation #%d on an equal input returned %s", c.sql, di, k+2, gq.Render(o2.Rows)), cs(nil))
+					break
+				}
+			}
+		}
 		if have && firstErr == "" {
 			r.Outcomes = append(r.Outcomes, strings.Join(first, ";"))
 			// twice in one process, without resetting anything in between
@@ -325,7 +339,7 @@ func (p *c12) RunCase(i int) *core.CaseResult {
 
 func (p *c12) Meta() core.Meta {
 	return core.Meta{
-		Rule: "one case per query = (55 expression forms: literals, columns, paths, pipes, arithmetic, comparisons, IN / BETWEEN / LIKE / IS, CASE, tuples incl. nested, ARRAY, nested calls, every built-in family, subqueries incl. star / enclosing / dual-star, EXISTS, ONCE / SCOPED / ASYNC / SPINASYNC / SETVAR / FUSE / REPORT_WHEN) x (17 clause positions: select item, with star, function argument, nested argument, tuple element, CASE branch, IF argument, WHERE operand, subquery select list, CTE, derived table, UNION branch, DISTINCT, ORDER BY + LIMIT, GROUP BY with star, join side, nested FROM), plus 30 further queries (aggregates, group-by, every join strategy incl. INTO and PARALLEL, CTE thunks in scope of a star, back-references, DISTINCT over a subquery plus star, ASYNC inside derived tables / CTEs / subqueries, AWAIT, GLOBAL, dual, UNION); each on 3 documents under every Go-map iteration order within 1 (thorough 2) deviations, every schedule within 1 preemption when goroutines are spawned, and a second time in the same process. Oracle: reflective walk (only maps, slices, strings, numbers, booleans, nil; no pointer / func / chan / engine type / `<-` key / cycle); equal multisets across all explored executions, equal sequences unless grouping or a join is involved. non-trivial = the query returned rows",
+		Rule: "one case per query = (55 expression forms: literals, columns, paths, pipes, arithmetic, comparisons, IN / BETWEEN / LIKE / IS, CASE, tuples incl. nested, ARRAY, nested calls, every built-in family, subqueries incl. star / enclosing / dual-star, EXISTS, ONCE / SCOPED / ASYNC / SPINASYNC / SETVAR / FUSE / REPORT_WHEN) x (17 clause positions: select item, with star, function argument, nested argument, tuple element, CASE branch, IF argument, WHERE operand, subquery select list, CTE, derived table, UNION branch, DISTINCT, ORDER BY + LIMIT, GROUP BY with star, join side, nested FROM), plus 33 further queries (aggregates, group-by, every join strategy incl. INTO and PARALLEL, CTE thunks in scope of a star, back-references, DISTINCT over a subquery plus star, ASYNC inside derived tables / CTEs / subqueries, AWAIT, GLOBAL, dual, UNION); each on 3 documents under every Go-map iteration order within 1 (thorough 2) deviations, every schedule within 1 preemption when goroutines are spawned, and a second time in the same process. Oracle: reflective walk (only maps, slices, strings, numbers, booleans, nil; no pointer / func / chan / engine type / `<-` key / cycle); equal multisets across all explored executions, equal sequences unless grouping or a join is involved. non-trivial = the query returned rows",
 		Assumptions: []string{"ASYNC / SPINASYNC / SETVAR / FUSE / REPORT_WHEN are exercised only as direct select-list items (and through CTE / derived table / ORDER BY), as the property states for async slots", "non-finite floats count as numbers", "a panic is C10's matter"},
 		Bounds:      map[string]any{"forms": len(c12Forms), "positions": len(c12Positions), "queries": len(p.cases), "map_order_deviations": p.bound, "preemptions": 1},
 		Exhaustive:  true,
